@@ -99,6 +99,8 @@ def run_conform(chk, pairs, maxlen, timeout, label):
                 from gen import enumprog
                 if r['mres'] == 'FAIL' and r.get('lang') and all(l.get('st') == 'fin' for l in r['lang']) and enumprog.lazy_finish_shape(ast['body']):
                     fid = 'finish-after-skipped-construct'
+                elif enumprog.foreach_clause_action(ast['body']) and [e.get('n') for e in r['mev']] in [[e.get('n') for e in l.get('ev', [])] for l in r.get('lang', [])]:
+                    fid = 'foreach-clause-action-after-each'      # same calls, other snapshot
             except Exception:
                 fid = None
             chk.violation('no procedural reading explains the compiled machine after input %s (%r) for %s %s: machine status %s, events %s; binary: %s'
@@ -142,6 +144,22 @@ def pinned_status(chk):
     from common import ROOT
     for k in chk.known:
         w = k.get('witness', {})
+        if w.get('kind') == 'hooksnap':
+            # the value of one output as the last hook call of a fixed history sees it
+            src = open(os.path.join(ROOT, w['program'])).read()
+            progs = runner.compile_programs([(w['program'], src, w['args'])])
+            root = runner.scratch_dir()
+            try:
+                runner.build_programs(progs, root)
+                if progs[0].bin:
+                    steps, status = mc.replay_hist(progs[0], w['history'])
+                    hooks = [h for c, evs in steps for e in evs for h in e.get('hooks', [])]
+                    if status == 'ok' and hooks and hooks[-1]['out'].get(w['var'], {}).get('v') == w['observed']:
+                        chk.known_hits.append((k['id'], 'pinned witness %s %s history %s: the last hook call sees %s = %s (prescribed: %s)'
+                                               % (w['program'], w['args'], w['history'], w['var'], w['observed'], w['prescribed'])))
+            finally:
+                shutil.rmtree(root, ignore_errors=True)
+            continue
         if w.get('kind') != 'status':
             continue
         src = open(os.path.join(ROOT, w['program'])).read()
